@@ -81,6 +81,7 @@ type Net struct {
 	C        *Ctx
 	P        ChainParams
 	Deputies []*Deputy
+	Elected  []*Deputy // users elected into a later term (Factory.TermMiners), slot = len(Deputies)+index
 	Founder  *keyInfo
 	Users    []*keyInfo
 	GenesisT uint32
@@ -387,7 +388,17 @@ func (n *Net) NewFactory(tag int) *Factory {
 // candidate transactions (invalid ones are discarded as the miner does) and stores it in
 // the factory's own store so that children can be mined on it.
 func (f *Factory) Mine(d int, parent *types.Block, ts uint32, txs types.Transactions, extra string) (blk *types.Block, invalid types.Transactions, err error) {
+	var key *keyInfo
+	if d >= len(f.Net.Deputies) && d < len(f.Net.Deputies)+len(f.Net.Elected) {
+		if d >= 9 {
+			return nil, nil, fmt.Errorf("no miner slot %d", d)
+		}
+		key = f.Net.signerKey(d) // an elected user (TermMiners); other worlds (C13) set the keys of their own slots
+	}
 	task := f.Net.C.W.Do(f.Tag+1+d, "factory.mine", func() {
+		if key != nil {
+			deputynode.SetSelfNodeKey(key.Key) // node-local: slot d is "the process of that deputy"
+		}
 		var header *types.Header
 		header, err = f.Asm.PrepareHeader(parent.Header, extra)
 		if err != nil {
@@ -424,6 +435,95 @@ func (f *Factory) Mine(d int, parent *types.Block, ts uint32, txs types.Transact
 		f.Kids[parent.Hash()] = append(f.Kids[parent.Hash()], blk.Hash())
 	}
 	return
+}
+
+// TermMiners returns who governs height h according to the factory's own deputy manager (the real
+// election code, checked against the statement's model by C10/C13), in rank order, with the keys
+// the harness holds for them: genesis deputies, or users elected in a later term (their node key
+// is the deterministic one the transaction generator registered them with). The slot of a Deputy
+// is its index in Net.Deputies, or len(Net.Deputies)+k for the k-th elected user of this net.
+func (f *Factory) TermMiners(h uint32) (miners []*Deputy, slots []int, err error) {
+	var nodes types.DeputyNodes
+	f.Net.C.W.Do(f.Tag, "factory.term", func() { nodes = f.DM.GetDeputiesByHeight(h, true) })
+	if len(nodes) == 0 {
+		return nil, nil, fmt.Errorf("no deputies known for height %d", h)
+	}
+	byRank := make([]*types.DeputyNode, len(nodes))
+	for _, dn := range nodes {
+		if int(dn.Rank) >= len(nodes) || byRank[dn.Rank] != nil {
+			return nil, nil, fmt.Errorf("deputy ranks of height %d are not 0..n-1", h)
+		}
+		byRank[dn.Rank] = dn
+	}
+	for _, dn := range byRank {
+		slot := -1
+		var who *Deputy
+		for i, d := range f.Net.Deputies {
+			if string(d.Node.NodeID) == string(dn.NodeID) && d.Miner.Addr == dn.MinerAddress {
+				slot, who = i, d
+			}
+		}
+		if who == nil {
+			for k, d := range f.Net.Elected {
+				if d.Miner.Addr == dn.MinerAddress {
+					slot, who = len(f.Net.Deputies)+k, d
+				}
+			}
+		}
+		if who == nil {
+			node := detKey("candnode-" + dn.MinerAddress.Hex())
+			if string(node.NodeID) != string(dn.NodeID) {
+				return nil, nil, fmt.Errorf("elected deputy %s has a node id the harness holds no key for", dn.MinerAddress.Hex())
+			}
+			// income address: the candidate profile's, filled in by chainRun from the state dump (default: the miner account)
+			who = &Deputy{Node: node, Miner: &keyInfo{Addr: dn.MinerAddress}, Income: &keyInfo{Addr: dn.MinerAddress}, Rank: int(dn.Rank)}
+			f.Net.Elected = append(f.Net.Elected, who)
+			slot = len(f.Net.Deputies) + len(f.Net.Elected) - 1
+		}
+		if who.Rank != int(dn.Rank) {
+			who = &Deputy{Node: who.Node, Miner: who.Miner, Income: who.Income, Rank: int(dn.Rank)} // rank of this term
+		}
+		miners = append(miners, who)
+		slots = append(slots, slot)
+	}
+	return miners, slots, nil
+}
+
+// InTurn applies the reference slot rule (InTurnRank) to the deputies that govern the child of
+// parent: the miner entitled at nowSec, its slot (for Mine) and the whole term (for confirmations).
+func (f *Factory) InTurn(parent *types.Block, nowSec int64) (who *Deputy, slot int, term []*Deputy, err error) {
+	h := parent.Height() + 1
+	term, slots, err := f.TermMiners(h)
+	if err != nil {
+		return nil, 0, nil, err
+	}
+	prank := -1
+	if h != 1 && !deputynode.IsRewardBlock(h) {
+		for _, d := range term {
+			if d.Miner.Addr == parent.MinerAddress() {
+				prank = d.Rank
+			}
+		}
+	}
+	r := InTurnRank(prank, int64(parent.Time())*1000, nowSec*1000, int64(f.Net.P.SlotMs), len(term))
+	return term[r], slots[r], term, nil
+}
+
+// signerKey returns the node key of slot d (genesis deputy or elected user).
+func (n *Net) signerKey(d int) *keyInfo {
+	if d < len(n.Deputies) {
+		return n.Deputies[d].Node
+	}
+	return n.Elected[d-len(n.Deputies)].Node
+}
+
+// ConfirmBy signs block hash h with the node key of who.
+func (n *Net) ConfirmBy(who *Deputy, h common.Hash) types.SignData {
+	sig, err := crypto.Sign(h[:], who.Node.Key)
+	if err != nil {
+		panic(err)
+	}
+	return types.BytesToSignData(sig)
 }
 
 // Confirm signs block hash h with deputy d's node key (not through the engine).
